@@ -706,6 +706,14 @@ def c14_s(draw, pid, tier, opts=None):
         else:
             prior.append(render_simple(draw(universe_entries_s())))
     base = draw(st.sampled_from(corp)) if draw(st.integers(0, 2)) else render_simple(draw(universe_entries_s()))
+    if draw(st.integers(0, 15)) == 0:
+        # sections nested far deeper than any shipped file, the same section written twice, an error deep inside
+        d_ = draw(st.sampled_from([7, 8, 9, 10, 11, 16, 33, 70]))
+        names_ = [draw(st.sampled_from(["ra", "rb", "sub", "n", "deep"])) for _ in range(d_)]
+        inner = draw(st.sampled_from(["leaf 1;", "s1 x; l1 (a, b);", "", "leaf (a b);", "leaf \"unterminated;"]))
+        base = "".join(n_ + " { " for n_ in names_) + inner + " }" * d_ + "\n"
+        if draw(st.booleans()):
+            base = base + base if draw(st.booleans()) else base + "".join(n_ + " { " for n_ in names_[:draw(st.integers(1, d_))]) + "x ( ;\n"
     k = draw(st.integers(0, 6))
     if k == 0:
         cand = base[:draw(st.integers(0, len(base)))]
